@@ -222,6 +222,9 @@ public:
     inline const std::vector<integral_t>& integrateAndNormalize() {
         integrate();
         normalize();
+        // projection and populations follow the rescaled data
+        updateXProjection();
+        integrate();
         return _filling;
     }
 
